@@ -9,13 +9,13 @@ from fractions import Fraction
 import numpy as np
 from pymatgen.core import Lattice
 
-from . import core, gem, trajsc
+from . import core, gem, trajsc, translate
 from .core import Outcome, PropertySpec, enc
 
 from gemdat.volume import Volume, trajectory_to_volume  # noqa: E402
 
 PID = 'C08'
-MODULES = ['GProofs.C08', 'GProofs.C08Fl']
+MODULES = ['GProofs.C08', 'GProofs.C08Fl', 'GProofs.C08Gen']
 RES = [0.5, 0.75, 1.0, 1.25, 2.0, 3.0]
 
 
@@ -166,6 +166,7 @@ SPEC = PropertySpec(
     modules=MODULES,
     run=run,
     replay=replay,
+    gen=translate.gen_for('FormulasC08'),
     rule=('random trajectories (3% on a long thin cell with 330-510 voxels along one axis; 1-7 frames x 1-4 atoms; coordinates on k/64, k/7, k/10, k/3 grids in [-2,3], samples forced onto 0, 1, '
           '-1, 63/64 ...) on pool lattices x resolutions {0.5,0.75,1,1.25,2,3}: grid size = floor(L/res) per axis (exact from the '
           'rational squared length; cases with L/res within 1e-9 of an integer skipped), voxel sum = frames x atoms, every sample in '
